@@ -130,6 +130,11 @@ func (r balanceRunner) execute(cmd *cobra.Command, args []string) error {
 		return err
 	}
 	partition := r.Multiperiod.Partition(j.Period())
+	if r.diff {
+		// with --diff a column shows the change inside its period: with --last n, what was booked before the
+		// first reported period is not part of the report (as it is not with --from)
+		partition = partition.Reported()
+	}
 	report := balance.NewReport(reg, partition)
 	procs := []*journal.Processor{
 		check.Check(),
